@@ -8,7 +8,7 @@
    step ([a_other]) and therefore universally quantified in the theorems.
    Definitions only; lemmas in Proofs/C15.v. *)
 From Coq Require Import List NArith Bool String.
-From GQ Require Import Lib.C15_Row Lib.C15_Wire Lib.C15_Window Generated.C15JumpTable.
+From GQ Require Import Lib.C15_Row Lib.C15_Wire Lib.C15_Window Generated.C15JumpTable Generated.C15Decoders.
 Import ListNotations.
 Local Open Scope N_scope.
 
@@ -194,10 +194,13 @@ Inductive case :=
 | mkWire (w_id : N) (w_tx : list N) (w_sig w_seal : option (list N))
 (* one RETURNDATACOPY of the interpreter totality sweep (Lib/C15_Window.v win_ok): memOffset, dataOffset, length,
    len(returnData); observed 0 = copied, 1 = ErrReturnDataOutOfBounds, 2 = refused by the charge phase *)
-| mkWin (n_id n_mem n_off n_len n_ret n_obs : N).
+| mkWin (n_id n_mem n_off n_len n_ret n_obs : N)
+(* (A) the decoder inventory of one run: the decode entry points ("<package dir>.<Type>.<Method>") exercised by an
+   entry of the sweep whose valid fixture decoded to the end, and the harness' list of deliberately unswept ones *)
+| mkInv (v_id : N) (v_swept v_exempt : list string).
 
 Definition case_id (c : case) : N :=
-  match c with mkCase i _ _ _ _ _ _ => i | mkWire i _ _ _ => i | mkWin i _ _ _ _ _ => i end.
+  match c with mkCase i _ _ _ _ _ _ => i | mkWire i _ _ _ => i | mkWin i _ _ _ _ _ => i | mkInv i _ _ => i end.
 
 Definition verdict_code (v : verdict) : N :=
   match v with VOk => 0 | VInvalid => 1 | VUnderflow => 2 | VStackOverflow => 3 | VOutOfGas => 4 | VGasOverflow => 5 end.
@@ -209,6 +212,38 @@ Definition mstate_eqb (a b : mstate) : bool :=
 
 Definition wire_seal (tx : list N) : option (list N) :=
   match extract_script_sig tx with Some s => extract_seal_hash s | None => None end.
+
+(* ---- (A) decoder inventory ----
+   Generated/C15Decoders.v `decoders` = every method ProtoDecode / UnmarshalJSON / UnmarshalText / DecodeRLP /
+   UnmarshalBinary / Deserialize defined in the source tree (syntactic scan on every run).  Out of scope, with the
+   reason (same list as harness/cmd/c15/dec/covers.go Exempt; the mkInv case compares them): *)
+Definition decoders_exempt : list string :=
+  [ "core.Genesis.UnmarshalJSON"                          (* operator-supplied genesis file, configuration *)
+  ; "core.storageJSON.UnmarshalText"                      (* part of the genesis file decoder *)
+  ; "core/rawdb.LegacyTxLookupEntry.ProtoDecode"          (* no caller in the tree *)
+  ; "core/types.AuxPowTx.Deserialize"                     (* no AuxPowTxData implementation, no caller *)
+  ; "core/vm.StructLog.UnmarshalJSON"                     (* tracer output type *)
+  ; "crypto/blake2b.digest.UnmarshalBinary"               (* hash state of the vendored blake2b, no caller *)
+  ; "p2p/node/peerManager/peerdb.AddrInfo.ProtoDecode"    (* peer database records: package not linkable from the harness module *)
+  ; "p2p/node/peerManager/peerdb.PeerInfo.ProtoDecode"
+  ; "quai/abi.ABI.UnmarshalJSON"                          (* contract ABI of local tools *)
+  ; "quai/abi.Argument.UnmarshalJSON"
+  ; "quaiclient/ethclient.rpcTransaction.UnmarshalJSON"   (* client library *)
+  ; "trie.StackTrie.UnmarshalBinary" ]%string.            (* no caller outside tests *)
+
+(* package directories whose decoders are node inputs (what the sweep links and feeds) *)
+Definition decoder_scope : list string :=
+  [ "common."; "common/hexutil."; "common/math."; "core/types."; "quai/filters."; "rpc." ]%string.
+
+Definition str_mem (x : string) (l : list string) : bool := existsb (String.eqb x) l.
+Definition str_incl (a b : list string) : bool := forallb (fun x => str_mem x b) a.
+
+(* a decoder is accounted for when the run swept it or the model exempts it *)
+Definition inv_covered (swept : list string) (d : string) : bool := str_mem d swept || str_mem d decoders_exempt.
+Definition inv_ok (swept exempt : list string) : bool :=
+  forallb (inv_covered swept) decoders && str_incl exempt decoders_exempt && str_incl decoders_exempt exempt.
+
+Definition in_scope (d : string) : bool := existsb (fun p => String.prefix p d) decoder_scope.
 
 Definition case_ok (c : case) : bool :=
   match c with
@@ -222,6 +257,7 @@ Definition case_ok (c : case) : bool :=
   | mkWire _ tx osig oseal =>
     opt_bytes_eqb (extract_script_sig tx) osig && opt_bytes_eqb (wire_seal tx) oseal
   | mkWin _ m o l rl obs => win_ok m o l rl obs
+  | mkInv _ swept exempt => inv_ok swept exempt
   end.
 
 Definition mismatches (cs : list case) : list N :=
